@@ -60,9 +60,16 @@ def model_stage(tier: str) -> dict:
             m = re.search(r"Error: The behavior up to this point is:(.*)", w.out, re.S)
             steps = len(re.findall(r"^State \d+:", w.out, re.M))
             trace = f"{steps} states to the idle metaepoch"
+        # liveness: with a global condition that must hold eventually every fair behaviour ends (no state constraint)
+        lv = run_tlc("MC_HMS", "HMS_live.cfg", d / "live", workers=4, timeout=1800, heap="4g")
+        if not lv.ok and not lv.violated:
+            raise MachineryError("liveness run failed:\n" + "\n".join(lv.out.splitlines()[-20:]))
+        live = {"cfg": "HMS_live.cfg", "distinct_states": lv.distinct, "terminates": not lv.violated, "wall_s": round(lv.wall_s, 1)}
+        if lv.violated:
+            r.violated.append("Termination")
         wit = _witnesses(d)
         unreachable = [f"model witness not reachable: {n} ({WITNESSES[n]})" for n, v in wit.items() if not v["reachable"]]
-        return {"witnesses": wit, "unreachable_witnesses": unreachable,
+        return {"liveness": live, "witnesses": wit, "unreachable_witnesses": unreachable,
                 "cfg": cfg, "generated": r.generated, "distinct": r.distinct, "depth": r.depth,
                 "violated": r.violated, "tail": r.out[-2500:] if r.violated else "",
                 "action_coverage": cov, "untaken_actions": untaken, "wall_s": round(r.wall_s, 1),
